@@ -7,6 +7,7 @@ CONSTANTS
   NFiles = 2
   EditKinds = {"defs", "value"}
   Linking = TRUE
+  StaleOps = FALSE
 INIT Init
 NEXT Next
 VIEW View
